@@ -311,6 +311,12 @@ func trimStack(st string) string {
 func (r *Runner) Sweep(name string, n int64, fn func(w *Worker, i int64)) {
 	r.sweepSeq++
 	sw := r.sweepSeq
+	t0 := time.Now()
+	defer func() {
+		r.mu.Lock()
+		r.counters["ms:"+name] += time.Since(t0).Milliseconds()
+		r.mu.Unlock()
+	}()
 	var next atomic.Int64
 	var completed atomic.Int64
 	var wg sync.WaitGroup
